@@ -590,6 +590,15 @@ func (m *Manager) NewScopedKeyManager(ns walletdb.ReadWriteBucket,
 		if err != nil {
 			return nil, err
 		}
+
+		// createManagerKeyScope created the default account, so
+		// record it as the last account. Otherwise the first
+		// NewAccount in this scope would re-create account 0 and
+		// reset its address indices.
+		err = putLastAccount(ns, &scope, DefaultAccountNum)
+		if err != nil {
+			return nil, err
+		}
 	}
 
 	// Finally, we'll register this new scoped manager with the root
